@@ -153,7 +153,8 @@ fn group_a(cat: &mut Catalogue, tier: Tier) {
         cat.root(p(Ty::Item(i)), "A", format!("{k:?}"));
         if tier == Tier::Thorough {
             for &k2 in &ks[n + 1..] {
-                let Some(s2) = apply(s1.clone(), k2) else { continue };
+                let Some(mut s2) = apply(s1.clone(), k2) else { continue };
+                s2.style = ((n + 3 * cat.roots.len()) % 4) as u8;
                 let i = cat.add(Item::Struct(s2));
                 cat.root(p(Ty::Item(i)), "A", format!("{k:?}+{k2:?}"));
             }
@@ -190,10 +191,29 @@ fn group_a(cat: &mut Catalogue, tier: Tier) {
             (Knob::Skip(2), Knob::Map(2)),
             (Knob::DefaultTrait(0), Knob::Map(0)),
         ];
-        for &(k1, k2) in pairs {
-            let s = apply(apply(base.clone(), k1).unwrap(), k2).unwrap();
+        for (n, &(k1, k2)) in pairs.iter().enumerate() {
+            let mut s = apply(apply(base.clone(), k1).unwrap(), k2).unwrap();
+            // the way the arguments are written rotates over the pairs
+            s.style = (n % 4) as u8;
             let i = cat.add(Item::Struct(s));
-            cat.root(p(Ty::Item(i)), "A", format!("{k1:?}+{k2:?}"));
+            cat.root(p(Ty::Item(i)), "A", format!("{k1:?}+{k2:?} (attribute style {})", n % 4));
+        }
+        // one attribute-rich struct in all four styles
+        for style in 0..4u8 {
+            let mut s = base.clone();
+            s.style = style;
+            s.rename_all = Some(RenameAll::Camel);
+            s.deny = Deny::Default;
+            s.validate = true;
+            s.fields[0].rename = Some("ren_a".into());
+            s.fields[0].default = DefaultSpec::Expr;
+            s.fields[0].map = true;
+            s.fields[1].conv = Conv::TryFrom { by_ref: false };
+            s.fields[1].missing_fn = true;
+            s.fields[2].skip = true;
+            s.fields[2].default = DefaultSpec::Expr;
+            let i = cat.add(Item::Struct(s));
+            cat.root(p(Ty::Item(i)), "A", format!("attribute-rich struct, style {style}"));
         }
     }
 }
@@ -244,7 +264,7 @@ fn group_b(cat: &mut Catalogue, tier: Tier) {
         }
     }
     // B3: identifier shapes × rename_all
-    for shape in ["a", "my_field", "my__field", "_lead", "trail_", "myField", "MyField", "Éclair"] {
+    for shape in ["a", "my_field", "my__field", "_lead", "trail_", "myField", "MyField", "Éclair", "sha256sum", "ipv4_addr", "field_1", "x2Y"] {
         for ra in [None, Some(RenameAll::Camel), Some(RenameAll::Lower)] {
             let mut s = st(vec![FieldSpec::plain(shape, pu8()), FieldSpec::plain("zz_other", pu8())]);
             s.rename_all = ra;
@@ -275,6 +295,14 @@ fn group_b(cat: &mut Catalogue, tier: Tier) {
         let i = cat.add(Item::Struct(s));
         cat.root(p(Ty::Item(i)), "B5", format!("wide struct, 24 fields, 6 skipped, {deny:?} {ra:?}"));
     }
+    // B6: more fields than fit any machine word used as a "seen" mask
+    for deny in [Deny::No, Deny::Default] {
+        let mut s = st((0..70).map(|i| FieldSpec::plain(&format!("g{}{}", (b'a' + (i / 26) as u8) as char, (b'a' + (i % 26) as u8) as char), pu8())).collect());
+        s.fields[66].default = DefaultSpec::Trait;
+        s.deny = deny;
+        let i = cat.add(Item::Struct(s));
+        cat.root(p(Ty::Item(i)), "B6", format!("very wide struct, 70 fields, {deny:?}"));
+    }
     // B4: 1-, 2- and 4-field structs
     for n in [1usize, 2, 4] {
         for deny in [Deny::No, Deny::Default] {
@@ -288,8 +316,9 @@ fn group_b(cat: &mut Catalogue, tier: Tier) {
 }
 
 pub fn unit_enum(n: usize, ra: Option<RenameAll>, rename_second: bool) -> EnumSpec {
-    let names = ["Alpha", "BetaTwo", "gamma", "Delta", "EpsilonLong", "Zed"];
+    let names = ["Alpha", "BetaTwo", "gamma", "Not_Found", "EpsilonLong", "Zed"];
     EnumSpec {
+        style: 0,
         tag: None,
         rename_all: ra,
         deny: Deny::No,
@@ -308,6 +337,7 @@ pub fn unit_enum(n: usize, ra: Option<RenameAll>, rename_second: bool) -> EnumSp
 
 pub fn tagged_enum(tag: &str) -> EnumSpec {
     EnumSpec {
+        style: 0,
         tag: Some(tag.to_string()),
         rename_all: None,
         deny: Deny::No,
@@ -376,6 +406,19 @@ fn group_c(cat: &mut Catalogue, tier: Tier) {
         e.variants[1].rename = Some("ren_v".into());
         let i = cat.add(Item::Enum(e));
         cat.root(p(Ty::Item(i)), "C2", format!("tagged renamed variant {ra:?}"));
+    }
+    // a variant carrying both rename and rename_all, written in every order / placement
+    for style in 0..4u8 {
+        for deny in [Deny::No, Deny::Default] {
+            let mut e = tagged_enum("kind");
+            e.style = style;
+            e.deny = deny;
+            e.rename_all = Some(RenameAll::Lower);
+            e.variants[1].rename = Some("ren_v".into());
+            e.variants[1].rename_all = Some(RenameAll::Camel);
+            let i = cat.add(Item::Enum(e));
+            cat.root(p(Ty::Item(i)), "C2", format!("variant with rename + rename_all, style {style}, {deny:?}"));
+        }
     }
     // tag key colliding with a field name / being a near-miss of one
     for (tag, deny) in [("fa_x", Deny::No), ("fa_x", Deny::Default), ("fa_xx", Deny::Default), ("fbCap", Deny::No)] {
@@ -542,6 +585,7 @@ fn group_d(cat: &mut Catalogue, tier: Tier) {
     cat.root(p(Ty::Item(r1)), "D", "recursive struct (Option<Box<Self>>)");
     let r2 = cat.add_rec(|me| {
         Item::Enum(EnumSpec {
+            style: 0,
             tag: Some("t".into()),
             rename_all: None,
             deny: Deny::Default,
